@@ -1344,7 +1344,7 @@ func zstdStream(r *vh.Rng, reg []*entry) {
 	targets := []*entry{byName["gpbft.PartialGMessage"], byName["chainexchange.Message"], byName["certs.FinalityCertificate"]}
 	sizes := []int{1<<20 + 1, 12 << 20}
 	if thorough {
-		sizes = append(sizes, 256<<20, 1<<30)
+		sizes = append(sizes, 64<<20, 512<<20)
 	}
 	for _, e := range targets {
 		for _, sz := range sizes {
@@ -1490,7 +1490,7 @@ func main() {
 		r := rng.Fork(5)
 		n := 45
 		if thorough {
-			n = 1500
+			n = 1000
 		}
 		measure = false
 		for _, e := range reg {
@@ -1508,7 +1508,7 @@ func main() {
 		r := rng.Fork(6)
 		truncFull, probes, muts := 6, 6, 150
 		if thorough {
-			truncFull, probes, muts = 15, 40, 4000
+			truncFull, probes, muts = 15, 40, 3000
 		}
 		perType := map[string]int{}
 		for _, cb := range corpus {
